@@ -245,10 +245,10 @@ def register(PROPS):
         "race": True,
         "compare": cmp_client,
         "shrink_candidates": shrink_client,
-        "nontrivial": lambda c, g: any(ch.isdigit() for ch in g.split(" | ")[0]) or c.startswith("REGC"),
+        "nontrivial": lambda c, g: any(ch.isdigit() for ch in g.split(" | ")[0]) or c.startswith("REGC") or c.startswith("GREG "),
         "rule": "random subscribe / subscribe-all / unsubscribe (repeated, stale, after re-subscribing the same type) / event scripts, events "
                 "through VerifDispatch or through a real Connect with a stepped body; concurrent churn variant (REGC), under the race detector "
-                "in the thorough tier; non-trivial = some callback was invoked; distinct by case line; mode w: the stepped stream is the connection's second one (the first was cut inside a typed event)",
+                "in the thorough tier; GREG: a quarter of the scripts judged against the registry functions as translated; non-trivial = some callback was invoked; distinct by case line; mode w: the stepped stream is the connection's second one (the first was cut inside a typed event)",
         "hist": hist_client,
         "extra": lock_discipline,
         "level_note": "Trusted: Lean kernel (axioms propext, Classical.choice, Quot.sound only), the hand-written model (validated by "
